@@ -111,7 +111,8 @@ func (pa *patchApplierWO) Delete(key []byte) {
 	if ok, err := pa.db.Has(key); err != nil {
 		pa.err = err
 	} else if !ok {
-		pa.err = pa.db.Put(key, []byte{0})
+		// tombstone in the encoding of enableDelete: an empty value means "not present"
+		pa.err = pa.db.Put(key, []byte{})
 	}
 }
 
